@@ -94,7 +94,10 @@ def gen_cb(rng, d, stack_async, kind=None, weights=(6, 2, 2)):
     c = {"k": k, "x": False, "m": None}
     if k in ("pushfn", "pushafn") and rng.random() < 0.6:
         c["lk"] = rng.choice(B.LOOKS[1:])
-    if k in B.MGR_KINDS:
+    if k in B.F10_KINDS and rng.random() < 0.4:
+        # push(manager) of a generator-based manager that was never entered: its generator has an unstarted frame
+        c["m"] = {"t": "gen", "a": is_a, "f": rng.random() < 0.15, "u": True, "body": _frm()}
+    elif k in B.MGR_KINDS:
         c["m"] = gen_mgr(rng, d, is_a, weights)
     elif k in B.METH_KINDS:
         c["m"] = gen_mgr(rng, d, is_a, (8, 1, 1))
@@ -212,6 +215,14 @@ def specials():
     exs = gcm(False, _frm([_wth(gcm(False))], ["deleg", _frm([_wth(_plain(False))])]))
     out.append({"root": _frm([_wth(_plain(False))], ["exit", _wth(exs)]), "mode": "run", "rk": "gen"})
     out.append({"root": _frm([_wth(_plain(True))], ["exit", _wth(copy.deepcopy(exs))]), "mode": "run", "rk": "coro"})
+    # push(manager) / push_async_exit(manager) of generator-based managers that were never entered, at several depths
+    un = lambda a, f=False: {"t": "gen", "a": a, "f": f, "u": True, "body": _frm()}
+    ust = {"t": "stack", "a": False, "f": False, "cbs": [{"k": "pushmgr", "x": False, "m": un(False)}, {"k": "enter", "x": False, "m": gcm(False)}]}
+    out.append({"root": _frm([_wth(copy.deepcopy(ust))]), "mode": "susp", "rk": "gen"})
+    out.append({"root": _frm([_wth({"t": "stack", "a": True, "f": False, "cbs": [
+        {"k": "pushamgr", "x": False, "m": un(True)}, {"k": "pushmgr", "x": False, "m": un(False, True)},
+        {"k": "entera", "x": False, "m": gcm(True)}, {"k": "enter", "x": False, "m": copy.deepcopy(ust)},
+        {"k": "enter", "x": False, "m": gcm(False, _frm([_wth(copy.deepcopy(ust))]))}]})]), "mode": "susp", "rk": "coro"})
     # user functions that look like contextlib's _exit_wrapper closure, registered with push / push_async_exit
     looks = [{"k": "pushfn", "x": False, "m": None, "lk": lk} for lk in B.LOOKS]
     out.append({"root": _frm([_wth({"t": "stack", "a": False, "f": False, "cbs": copy.deepcopy(looks) + [{"k": "callback", "x": False, "m": None}]})]),
